@@ -40,14 +40,14 @@ def run(ctx):
         doc, seps = D.dense_document(rng, n)
         big.append((doc, D.render(rng, doc, seps=seps, trailing=1)))
     # beyond 1 MiB, a paragraph separator (or a line end) exactly across every multiple of 4096 characters
-    for feat in ('sep-straddle',):
+    for feat in ('sep:2:1', 'sep:3:1', 'sep:3:2', 'sep:4:1', 'sep:4:2', 'sep:4:3'):
         doc = []
 
         def unit(i):
             p = [['Package', 'p%d' % i, []], ['Description', 'd %d' % i, [' more %d' % i]]]
             doc.append(p)
             return ['Package: p%d' % i, 'Description: d %d' % i, ' more %d' % i]
-        text = G.aligned_text(rng, 1150000, feat, unit=unit, gaps=False)
+        text = G.aligned_text(rng, 1150000 if feat in ('sep:3:2', 'sep:4:2') else 140000, feat, unit=unit, gaps=False)
         # the generator pads the last line of every paragraph and separates paragraphs as the feature says
         lines = [l for l in text.split('\n')]
         k = 0
